@@ -65,21 +65,27 @@ Print Assumptions C11_media_cssText_pinned_refuted.
 Theorem C11_sheet_insertRule_namespace_pinned_refuted : refuted_at m_sheet_insertRule_ns_pinned 0 9.
 Proof. exact sheet_insertRule_ns_pinned_refuted. Qed.
 
-(* ---- not repaired (known findings): refuted on both trees ---- *)
-Theorem C11_sheet_insertRule_import_refuted : refuted_at m_sheet_insertRule_import 0 10.
-Proof. exact sheet_insertRule_import_refuted. Qed.
-Theorem C11_import_cssText_fetch_refuted : refuted_at m_import_cssText_fetch 0 10.
-Proof. exact import_cssText_fetch_refuted. Qed.
-Theorem C11_import_href_fetch_refuted : refuted_at m_import_href_fetch 0 10.
-Proof. exact import_href_fetch_refuted. Qed.
-Theorem C11_sheet_insertRule_list_refuted : refuted_at m_sheet_insertRule_list 2 105.
-Proof. exact sheet_insertRule_list_refuted. Qed.
-Theorem C11_media_insertRule_list_refuted : refuted_at m_media_insertRule_list 2 105.
-Proof. exact media_insertRule_list_refuted. Qed.
-Theorem C11_page_insertRule_list_refuted : refuted_at m_page_insertRule_list 2 105.
-Proof. exact page_insertRule_list_refuted. Qed.
-(* ... and proved under the guard that excludes exactly that class: lists of
-   at most one rule *)
+(* ---- repaired since (rule lists inserted all or none; imported sheets parsed
+   in logging mode): the pinned variants stay refuted, the current ones are in
+   atomic_mutators and covered by C11_rejected_unchanged ---- *)
+Theorem C11_sheet_insertRule_import_pinned_refuted : refuted_at m_sheet_insertRule_import_pinned 0 10.
+Proof. exact sheet_insertRule_import_pinned_refuted. Qed.
+Theorem C11_import_cssText_fetch_pinned_refuted : refuted_at m_import_cssText_fetch_pinned 0 10.
+Proof. exact import_cssText_fetch_pinned_refuted. Qed.
+Theorem C11_import_href_fetch_pinned_refuted : refuted_at m_import_href_fetch_pinned 0 10.
+Proof. exact import_href_fetch_pinned_refuted. Qed.
+Theorem C11_sheet_insertRule_list_pinned_refuted : refuted_at m_sheet_insertRule_list_pinned 2 105.
+Proof. exact sheet_insertRule_list_pinned_refuted. Qed.
+Theorem C11_media_insertRule_list_pinned_refuted : refuted_at m_media_insertRule_list_pinned 2 105.
+Proof. exact media_insertRule_list_pinned_refuted. Qed.
+Theorem C11_page_insertRule_list_pinned_refuted : refuted_at m_page_insertRule_list_pinned 2 105.
+Proof. exact page_insertRule_list_pinned_refuted. Qed.
+Theorem C11_rule_lists_and_imports_atomic :
+  In m_sheet_insertRule_list atomic_mutators /\ In m_media_insertRule_list atomic_mutators /\ In m_page_insertRule_list atomic_mutators
+  /\ In m_sheet_insertRule_import atomic_mutators /\ In m_import_cssText_fetch atomic_mutators /\ In m_import_href_fetch atomic_mutators.
+Proof. unfold atomic_mutators. repeat split; in_list. Qed.
+(* ... the pinned list insertion is proved under the guard that excludes exactly
+   that class: lists of at most one rule *)
 Theorem C11_insertRule_list_partial m n s x s' c e :
   In m list_mutators -> (n <= 1)%nat ->
   step m n s x = (s', Rejected c e) -> obs m s' = obs m s.
